@@ -2,7 +2,7 @@
 //@ assume: txhashset::extending is abstract (it builds structs holding `&mut` borrows, which Verus cannot type): assumed to return Ok(v) only if the closure returned Ok(v), and to keep the closure's writes only if the closure did not force a rollback
 //@ assume: T7: the closure passed to txhashset::extending is lifted to the named function pb_inner (captured prev, b, ctx_specific_validation become parameters) and verified against the predicate the abstract `extending` hands back; in process_block the closure expression is replaced by the captured environment. T6: the four `let x = &mut ctx.field;` re-borrows are folded into the call; `?` error conversions dropped; log macros removed
 //@ assume: decided here: pipe::process_block moves the stored chain head ONLY to the tip of the block being processed, ONLY if that block has strictly more total difficulty than the head read at the start, and ONLY after check_known, the PoW check, header processing, validate_block and the whole extension closure (fork rewind, coinbase maturity, UTXO validation, block sums, apply + roots/sizes) succeeded; when the block has no more work the extension is force-rolled-back and the head is left untouched; every error path leaves the stored head untouched
-//@ assumed_items: 21
+//@ assumed_items: 22
 //@ import: use vstd::std_specs::cmp::PartialEqSpecImpl;
 //@ fns: pipe::process_block, pipe::process_block (closure passed to txhashset::extending), pipe::has_more_work, pipe::update_head
 #[derive(Clone, Copy)]
@@ -60,13 +60,22 @@ impl Batch {
                 final(self).saved_blocks@ == old(self).saved_blocks@ { unimplemented!() }
 }
 pub struct Extension { pub rollback: bool }
+#[derive(Clone, Copy)]
 pub struct HeaderExtension { pub _p: u8 }
+pub trait HxArg {}
+impl HxArg for HeaderExtension {}
+impl<'a> HxArg for &'a HeaderExtension {}
+impl<'a> HxArg for &'a mut HeaderExtension {}
 pub struct ExtensionPair { pub header_extension: HeaderExtension, pub extension: Extension }
 impl Extension {
     /// offered so that a variant of the closure that rewinds ONLY the txhashset extension is decided: it moves the three MMRs to `h`
     /// but says nothing about the header extension, which the fork rewind (sp_fork_applied) also has to put on the fork being extended
     #[verifier::external_body]
     pub fn rewind(&mut self, h: &BlockHeader, batch: &Batch) -> (r: Result<(), Error>) ensures final(self).rollback == old(self).rollback { unimplemented!() }
+    /// offered so that a variant applying a block WITHOUT apply_block_to_txhashset's root / size validation is decided
+    #[verifier::external_body]
+    pub fn apply_block<H: HxArg>(&mut self, b: &Block, header_ext: H, batch: &mut Batch) -> (r: Result<(), Error>)
+        ensures final(self).rollback == old(self).rollback, final(batch).body_head@ == old(batch).body_head@, final(batch).saved_blocks@ == old(batch).saved_blocks@ { unimplemented!() }
 //@ extract chain/src/txhashset/txhashset.rs :: impl Extension::force_rollback
 //@   ensures:
 //@+    final(self).rollback,
